@@ -19,7 +19,9 @@ import (
 
 type walletOpts struct{ Threshold, MaxInputs, MaxDefrag int }
 
-func (o walletOpts) String() string { return fmt.Sprintf("defrag(thr=%d,maxin=%d,maxutxo=%d)", o.Threshold, o.MaxInputs, o.MaxDefrag) }
+func (o walletOpts) String() string {
+	return fmt.Sprintf("defrag(thr=%d,maxin=%d,maxutxo=%d)", o.Threshold, o.MaxInputs, o.MaxDefrag)
+}
 
 // fundedTxn is an outstanding (not released, not confirmed) funded transaction.
 type fundedTxn struct {
@@ -242,7 +244,7 @@ func (w *c07World) setup(name string) {
 
 type spendModel struct {
 	spendable map[types.SiacoinOutputID]types.SiacoinElement // owned, mature, not pool-spent, not reserved
-	unconf    map[types.SiacoinOutputID]types.SiacoinOutput   // outputs to the wallet created by pool transactions, unspent in the pool, not reserved
+	unconf    map[types.SiacoinOutputID]types.SiacoinOutput  // outputs to the wallet created by pool transactions, unspent in the pool, not reserved
 	reserved  map[types.SiacoinOutputID]bool
 	poolSpent map[types.SiacoinOutputID]bool
 }
@@ -661,6 +663,10 @@ func c07Ops(v2 bool, amounts []types.Currency) []c07op {
 var c07Setups = []string{"plain", "immature", "poolspent", "unconfirmed", "locked", "poolspent+unconfirmed", "locked+poolspent", "immature+locked+unconfirmed"}
 
 func c07() {
+	c07CrossVersion()
+	if os.Getenv("VERIF_C07_ONLY") == "crossversion" { // debugging aid
+		return
+	}
 	h := types.NewCurrency64(1)
 	var fullAmounts []types.Currency
 	for k := uint32(0); k <= 12; k++ {
@@ -839,5 +845,70 @@ func c07Expiry(bases map[univ.Regime]*univ.Universe) {
 		vtime.ResetNow()
 		w.w.Close()
 		run.Add(4, 4, 1, 1)
+	}
+}
+
+// c07CrossVersion: in the window where v1 and v2 transactions coexist, the wallet's only way to reach the
+// requested amount is an unconfirmed output created by a pooled transaction of the *other* version. A funded
+// and signed transaction must be acceptable to the pool (or the funding must be refused): an output of a pooled
+// v1 transaction cannot be spent by a v2 transaction before it is confirmed, and vice versa.
+func c07CrossVersion() {
+	for _, fundV2 := range []bool{true, false} {
+		u := univ.NewUniverse("wallet-cross-version", univ.RegimeX)
+		k := 0
+		for u.Nodes[k].Height+1 < u.Net.HardforkV2.AllowHeight {
+			k = u.Add(k, 1, nil, nil, fmt.Sprintf("m%d", u.Nodes[k].Height+1))
+		}
+		lw := &walletWorld{u: u, n: node.New(u), st: wstore.New(), rig: newWalletRig(u.As[0].Key)}
+		if err := lw.n.CM.AddBlocks(u.Blocks(u.PathTo(k))); err != nil {
+			run.Violate("c07:cross-version-setup", err.Error(), nil)
+			return
+		}
+		for lw.st.TipIdx != lw.n.CM.Tip() {
+			if _, err := lw.syncChunk(1000); err != nil {
+				run.Violate("c07:cross-version-setup", err.Error(), nil)
+				return
+			}
+		}
+		L := u.Nodes[k].L
+		a0, a1 := u.As[0], u.As[1]
+		e := univ.OwnedSC(L, a1.Addr)[0]
+		incoming := univ.SC(40)
+		if fundV2 {
+			t := univ.V1Spend(L.State, a1, e, a0.Addr, incoming, univ.SC(1))
+			if _, err := lw.n.CM.AddPoolTransactions([]types.Transaction{t}); err != nil {
+				run.Violate("c07:cross-version-setup", err.Error(), nil)
+				return
+			}
+		} else {
+			t := univ.V2Spend(L.State, a1, e, a0.Addr, incoming, univ.SC(1))
+			if _, err := lw.n.CM.AddV2PoolTransactions(lw.n.CM.Tip(), []types.V2Transaction{t}); err != nil {
+				run.Violate("c07:cross-version-setup", err.Error(), nil)
+				return
+			}
+		}
+		bal, _ := lw.rig.w.Balance()
+		amount := bal.Spendable.Add(univ.SC(5)) // only reachable with the unconfirmed output
+		run.Add(1, 1, 1, 1)
+		if fundV2 {
+			txn := types.V2Transaction{SiacoinOutputs: []types.SiacoinOutput{{Address: u.As[2].Addr, Value: amount}}}
+			basis, toSign, err := lw.rig.w.FundV2Transaction(&txn, amount, true)
+			if err == nil {
+				lw.rig.w.SignV2Inputs(&txn, toSign)
+				if _, perr := lw.n.CM.AddV2PoolTransactions(basis, []types.V2Transaction{txn}); perr != nil {
+					run.Violate("c07:funded-transaction-rejected:v2-spends-unconfirmed-v1-output", fmt.Sprintf("regime x, a pooled v1 transaction pays the wallet %v; FundV2Transaction(%v, useUnconfirmed=true) succeeds, but the signed transaction is rejected by the pool: %v", incoming, amount, perr), nil)
+				}
+			}
+		} else {
+			txn := types.Transaction{SiacoinOutputs: []types.SiacoinOutput{{Address: u.As[2].Addr, Value: amount}}}
+			toSign, err := lw.rig.w.FundTransaction(&txn, amount, true)
+			if err == nil {
+				lw.rig.w.SignTransaction(&txn, toSign, types.CoveredFields{WholeTransaction: true})
+				if _, perr := lw.n.CM.AddPoolTransactions([]types.Transaction{txn}); perr != nil {
+					run.Violate("c07:funded-transaction-rejected:v1-spends-unconfirmed-v2-output", fmt.Sprintf("regime x, a pooled v2 transaction pays the wallet %v; FundTransaction(%v, useUnconfirmed=true) succeeds, but the signed transaction is rejected by the pool: %v", incoming, amount, perr), nil)
+				}
+			}
+		}
+		lw.rig.w.Close()
 	}
 }
